@@ -3,7 +3,9 @@ package c16
 // Negative controls: the binding must notice a corrupted expectation. Three edges of
 // class h1-propose are replayed with a falsified label: a valid proposal and a valid
 // vote declared "cannot affect the node" (the stutter oracle must object), and an
-// invalid vote declared "accepted" (the conformance check must object).
+// invalid vote declared "accepted" (the conformance check must object). Two own-step labels
+// are falsified as well: an Advance declared to lead to round r+2, and a Start of the next
+// height declared to fail (the own-step conformance check must object to both).
 
 import (
 	"bufio"
@@ -18,6 +20,7 @@ import (
 type controlResult struct {
 	StutterOracle int    `json:"stutterOracle"` // falsified may=FALSE labels the oracle rejected (want 2)
 	Conformance   int    `json:"conformance"`   // falsified "accepted" labels the conformance check rejected (want 1)
+	OwnOracle     int    `json:"ownOracle"`     // falsified own-step labels the follow-up rejected (want 2)
 	Infra         string `json:"infra,omitempty"`
 }
 
@@ -30,12 +33,13 @@ func controlChild(c *core.Ctx, j job) {
 		fmt.Fprintf(w, "RESULT %s\nDONE\n", rj)
 		w.Flush()
 	}
-	edges, err := loadEdges(j.Edges, j.Class)
+	all, err := loadEdges(j.Edges, j.Class)
 	if err != nil {
 		out.Infra = err.Error()
 		finish()
 		return
 	}
+	edges, own := splitEdges(all)
 	pick := func(ok func(e *edge) bool) *edge {
 		for _, e := range edges {
 			if e.From.Q == 0 && len(e.From.Claim) == 0 && ok(e) {
@@ -60,13 +64,15 @@ func controlChild(c *core.Ctx, j job) {
 	prop.Act.May, vote.Act.May = false, false
 	bad.Act.Eff = "vote"
 	for i, e := range []*edge{prop, vote, bad} {
-		res := &jobResult{Class: j.Class, ByEff: map[string]int{}, Latent: map[string]int{}}
+		res := &jobResult{Class: j.Class, ByEff: map[string]int{}, Latent: map[string]int{}, ByOwn: map[string]int{}}
 		rn := &runner{class: j.Class, rng: rand.New(rand.NewSource(c.Seed + int64(i))), res: res, w: w, variants: 1, seenKey: map[string]bool{}}
 		if err := rn.rebuild(); err != nil {
 			out.Infra = err.Error()
 			break
 		}
-		if _, err := rn.replayEdge(e, 0); err != nil {
+		_, _, err := rn.replayEdge(e, 0)
+		rn.closeWAL()
+		if err != nil {
 			out.Infra = err.Error()
 			break
 		}
@@ -78,6 +84,52 @@ func controlChild(c *core.Ctx, j job) {
 		}
 		if i == 2 && len(res.Drift) > 0 {
 			out.Conformance++
+		}
+	}
+	// own steps: falsify one label of the model's own-step graph at a time
+	var from projState
+	for _, e := range edges {
+		if e.From.Q == 0 && len(e.From.Claim) == 0 {
+			from = e.From
+			break
+		}
+	}
+	for i := 0; i < 2 && out.Infra == ""; i++ {
+		fown := map[string][]*edge{}
+		falsified := false
+		for k, es := range own {
+			for _, e := range es {
+				cp := *e
+				if i == 0 && !falsified && k == from.key() && e.Act.Op == "advance" {
+					cp.To.Own.R++ // (the successor state is then unknown to the graph as well: the walk ends there)
+					falsified = true
+				}
+				if i == 1 && e.Act.Op == "start" && e.From.Own.Committed {
+					cp.Act.Res, cp.Run = "panic", false
+					falsified = true
+				}
+				fown[k] = append(fown[k], &cp)
+			}
+		}
+		if !falsified {
+			out.Infra = "own-step control edges not found in the export"
+			break
+		}
+		res := &jobResult{Class: j.Class, ByEff: map[string]int{}, Latent: map[string]int{}, ByOwn: map[string]int{}}
+		rn := &runner{class: j.Class, rng: rand.New(rand.NewSource(c.Seed + 10 + int64(i))), res: res, w: w, variants: 1, seenKey: map[string]bool{}, own: fown}
+		if err := rn.rebuild(); err != nil {
+			out.Infra = err.Error()
+			break
+		}
+		rn.classOwn = from.Own
+		err := rn.followUp(from, true, cause{}) // plan 0: advance, commit, start
+		rn.closeWAL()
+		if err != nil {
+			out.Infra = err.Error()
+			break
+		}
+		if len(res.Drift) > 0 && len(res.Hits) == 0 {
+			out.OwnOracle++
 		}
 	}
 	finish()
